@@ -111,6 +111,7 @@ type Interp struct {
 	symSched      bool
 	switches      int
 	preemptBudget int  // >0: preemption-bounded scheduling (rt.PreemptBound)
+	fpBitsSeq     int  // fresh names for math.Float64bits of symbolic floats
 	memfs         bool // in-memory file system switched on (rt.MemFS)
 	fsFiles       map[string]*memFile
 	fsHandles     map[*value]*memHandle
